@@ -67,6 +67,21 @@ def run(ctx):
     for name in specs:
         if name not in seen:
             R.bad("DERIVE.COVERAGE", name, "catalogue entry has no derived impl in the facts")
+    # entries for which the derive no longer produces compiling code: nothing can be established for them (fail closed),
+    # attributed to the properties whose features the entry exercises
+    FEAT = {"rename": "C07", "default": "C08", "deny": "C09", "enum": "C10", "conv": "C11"}
+    excl = getattr(ctx, "catalogue_excluded", {})
+    common = None
+    for name, info in excl.items():
+        fs_ = set(info["features"])
+        common = fs_ if common is None else (common & fs_)
+    for name, info in sorted(excl.items()):
+        # the culprit is most likely a feature that every failing entry uses
+        feats = [f for f in info["features"] if not common or f in common]
+        props = sorted(set(FEAT[f] for f in feats)) or ["C07"]
+        R.entries += 1
+        for pid in props:
+            R.bad(pid + ".BUILD", name, "the code derived for catalogue entry %s (features: %s) no longer compiles: %s" % (name, ",".join(info["features"]) or "plain", info["error"][:160]))
     summaries(ctx, R)
     return R
 
